@@ -173,12 +173,13 @@ def run(ctx: Ctx) -> None:
     )
     ctx.assumptions = ["children enumerated by plain enumeration (mc/domain_w.py brute_terms); strategies pass the domain gate"]
     ctx.bounds = {"classes": len(classes), "sizes": N_QUICK if ctx.quick else N_THOROUGH, "path_length": 3}
-    step = 24
-    ctx.pmap(_worker, [(ctx.tier, lo, min(lo + step, len(classes))) for lo in range(0, len(classes), step)])
     from mc.checks import c09g
 
-    c09g.run_g(ctx, "c09")
-    c09g.run_one_factor(ctx)
+    step = 8
+    tasks = c09g.g_tasks(ctx, "c09")
+    tasks += [(_worker, (ctx.tier, lo, min(lo + step, len(classes)))) for lo in range(0, len(classes), step)]
+    tasks += c09g.one_factor_tasks(ctx)
+    ctx.pmap_tasks(tasks)
 
 
 def replay(acc: Acc, payload: dict) -> None:
